@@ -48,32 +48,32 @@ Theorem no_calendar_without_step : forall st e t0 t, ts_times (task_solution st 
 Proof. reflexivity. Qed.
 
 (* every resource report carries the name of a worker or of a cumulative worker, never of one of its units *)
-Definition report_names (st : pstate) : list string := map (fun w => wref_report_name (w_ref w)) (ps_workers st).
+Definition report_names (st : pstate) : list resobj := map (fun w => wref_key (w_ref w)) (ps_workers st).
 
 Lemma resource_fold_names e st (ws : list wrec) : forall acc,
   (forall r, In r acc -> In (rs_name r) (report_names st)) ->
   (forall w, In w ws -> In w (ps_workers st)) ->
   forall r, In r (fold_left (fun acc wr =>
       let w := w_ref wr in
-      let name := wref_report_name w in
-      if is_unit w && existsb (fun r => String.eqb (rs_name r) name) acc then
-        map (fun r => if String.eqb (rs_name r) name
+      let name := wref_key w in
+      if is_unit w && existsb (fun r => resobj_beq (rs_name r) name) acc then
+        map (fun r => if resobj_beq (rs_name r) name
                       then {| rs_name := name; rs_assignments := worker_assignments st e w (rs_assignments r) |} else r) acc
-      else if negb (is_unit w) && existsb (fun r => String.eqb (rs_name r) name) acc then
-        map (fun r => if String.eqb (rs_name r) name
+      else if negb (is_unit w) && existsb (fun r => resobj_beq (rs_name r) name) acc then
+        map (fun r => if resobj_beq (rs_name r) name
                       then {| rs_name := name; rs_assignments := worker_assignments st e w [] |} else r) acc
       else acc ++ [{| rs_name := name; rs_assignments := worker_assignments st e w [] |}]) ws acc) ->
   In (rs_name r) (report_names st).
 Proof.
   induction ws as [|w ws IH]; intros acc Hacc Hws r Hr; cbn [fold_left] in Hr; [auto|].
   eapply IH; [| |exact Hr]; [|intros; apply Hws; now right].
-  assert (Hw : In (wref_report_name (w_ref w)) (report_names st)).
+  assert (Hw : In (wref_key (w_ref w)) (report_names st)).
   { unfold report_names. apply in_map_iff. exists w. split; [reflexivity|]. apply Hws. now left. }
   intros r' Hr'.
   destruct (is_unit (w_ref w) && existsb _ acc).
-  - apply in_map_iff in Hr' as (r0 & <- & H0). destruct (String.eqb _ _); cbn [rs_name]; auto.
+  - apply in_map_iff in Hr' as (r0 & <- & H0). destruct (resobj_beq _ _); cbn [rs_name]; auto.
   - destruct (negb (is_unit (w_ref w)) && existsb _ acc).
-    + apply in_map_iff in Hr' as (r0 & <- & H0). destruct (String.eqb _ _); cbn [rs_name]; auto.
+    + apply in_map_iff in Hr' as (r0 & <- & H0). destruct (resobj_beq _ _); cbn [rs_name]; auto.
     + apply in_app_or in Hr' as [H0|[<-|[]]]; cbn [rs_name]; auto.
 Qed.
 
@@ -84,8 +84,8 @@ Proof.
   eapply resource_fold_names; [| |exact Hr]; [intros ? []|auto].
 Qed.
 (* and the name of a unit worker is reported as the name of its cumulative worker *)
-Theorem unit_reported_as_cumulative : forall c i, wref_report_name (WUnit c i) = rref_report_name (RC c).
-Proof. reflexivity. Qed.
+Theorem unit_reported_as_cumulative : forall c i, wref_key (WUnit c i) = rref_key (RC c) /\ wref_key (WUnit c i) = ResC c.
+Proof. split; reflexivity. Qed.
 
 (* a listed assignment carries the busy interval of the schedule, and only non-negative ones are listed *)
 Lemma worker_assignments_in (e : env) (w : wref) : forall (l : list (nat * bool)) (acc : list (nat * Z * Z)) x,
